@@ -219,6 +219,13 @@ class Engine(object):
 
     def builtin(self, ex, name, args, kwargs, path, e):
         h = path.heap
+        if name == 'set' and len(args) == 1 and args[0].ty == 'clist' and args[0].x and \
+                all(a.ty in ('int', 'bool') and (z3.is_int_value(a.t) or z3.is_true(a.t) or z3.is_false(a.t)) for a in args[0].x):
+            # a set of integer / Boolean literals (True == 1, False == 0)
+            vals = set()
+            for a in args[0].x:
+                vals.add(int(a.t.as_long()) if a.ty == 'int' else (1 if z3.is_true(a.t) else 0))
+            return SV('constset', None, vals)
         if name == 'set':
             if not args:
                 return ex.alloc_set(path, hp.empty_set())
@@ -662,6 +669,18 @@ class Engine(object):
             else:
                 raise Unsupported('%s outside a loop' % kind)
         n_ret = 0
+        # the contract's `touches` / `pure` declarations are what callers rely on to keep heap components:
+        # every component the declaration leaves out must really be the same array at every exit
+        # (pure callees: the frame obligations below already say that nothing older than the call changes, and
+        #  they return no new object, so what they allocate is unreachable for the caller)
+        declared = None if (k.pure or k.touches is None) else set(k.touches)
+        for j_, (kind, val, p) in enumerate(final):
+            if declared is None:
+                break
+            for comp in hp.COMPONENTS:
+                if comp in declared or z3.eq(h0[comp], p.heap[comp]):
+                    continue
+                ex.oblige('declared:untouched:%s:exit%d' % (comp, j_ + 1), p, h0[comp] == p.heap[comp], ('frame',))
         for kind, val, p in final:
             c.h1 = p.heap
             c.yH = p.ghosts.get('yH', hp.empty_set())
